@@ -148,7 +148,7 @@ def check_routing(ctx):
                   detail="descent over the full index list", construct="routing-loop")
     # under/overflow: return without filling
     for p in P.paths_of(fn):
-        under = any(pol and A.src(t).endswith("< 0") for t, pol in p.literals())
+        under = any((pol and A.norm_src(t).endswith("< 0")) or (not pol and A.norm_src(t).endswith(">= 0")) for t, pol in p.literals())
         over = any(e[0] == "exc" and e[1].type is not None and res.canon(e[1].type) == "builtins.IndexError" for e in p.ev)
         if under or over:
             fills = [c for s in p.stmts() for c in A.walk_local(s) if isinstance(c, ast.Call) and isinstance(c.func, ast.Attribute) and c.func.attr == "fill"]
@@ -235,17 +235,47 @@ def check_shape(ctx):
     if not ctx.require(len(a0) == 1, "C11-d", mm, "md_map: the local holding arrays[0][0] was not found"):
         return
     a0 = a0[0]
-    tests = [i for i in A.walk_local(mm) if isinstance(i, ast.If) and "isinstance(%s" % a0 in A.src(i.test)]
-    ok = len(tests) == 1 and A.src(tests[0].test) == "isinstance(%s, list)" % a0
-    ctx.check("C11-d", ok, mm, "md_map does not recurse on `isinstance(arr0, list)` only: tuples are (data, context) cells and must not be "
-              "expanded", detail="md_map recurses into lists only", construct="md_map-recursion")
-    if ok:
-        body = tests[0].body
-        rets = [r for r in body if isinstance(r, ast.Return)]
-        okr = len(rets) == 1 and isinstance(rets[0].value, ast.ListComp) and A.call_name(rets[0].value.elt) == "md_map"
-        tup = [a for a in body if isinstance(a, ast.Assign) and "range(len(%s[0]))" % arrs in A.src(a.value)]
-        ctx.check("C11-d", okr and len(tup) == 1, mm, "md_map does not return one mapped element per element of the first array",
-                  detail="result has the length of the input", construct="md_map-length")
+    # path-based (polarity-aware): the recursion happens exactly on the paths that have established isinstance(arr0, list)
+    n_rec = n_flat = 0
+    bad = None
+    for p in P.paths_of(mm):
+        if p.end != "return":
+            continue
+        pol_list = None
+        other_type = None
+        for t, pol in p.literals():
+            if isinstance(t, ast.Call) and res.call_canon(t) == "builtins.isinstance" and len(t.args) == 2 and A.src(t.args[0]) == a0:
+                if res.canon(t.args[1]) == "builtins.list":
+                    pol_list = pol
+                else:
+                    other_type = A.src(t.args[1])
+        r = [x for x in p.stmts() if isinstance(x, ast.Return)][-1]
+        v = r.value
+        if isinstance(v, ast.Name):
+            ds = [x for x in p.stmts() if isinstance(x, ast.Assign) and any(isinstance(t, ast.Name) and t.id == v.id for t in x.targets)]
+            v = ds[-1].value if ds else v
+        recursive = any(isinstance(c, ast.Call) and res.call_canon(c) == "lena.math.meshes.md_map" for c in ast.walk(v)) if v is not None else False
+        if pol_list is None and not recursive:
+            continue       # the early returns for empty arrays
+        if recursive:
+            n_rec += 1
+            if pol_list is not True or other_type:
+                bad = (r, "recurses on a path that has not established isinstance(%s, list)%s" % (a0, " (it tests %s)" % other_type if other_type else ""))
+            elif not (isinstance(v, ast.ListComp) and len(v.generators) == 1):
+                bad = (r, "does not return one mapped element per element of the first array")
+        elif pol_list is True:
+            bad = (r, "does not recurse into a nested list")
+        else:
+            n_flat += 1
+            if not isinstance(v, ast.ListComp):
+                bad = (r, "does not return one mapped element per element of the array")
+    ok = bad is None and n_rec >= 1 and n_flat >= 1
+    ctx.check("C11-d", ok, bad[0] if bad else mm, "md_map %s: it must recurse on `isinstance(arr0, list)` only -- tuples are (data, context) "
+              "cells and must not be expanded -- and return a list of the same length" % (bad[1] if bad else "has no recursive and flat path"),
+              detail="md_map recurses into lists only", construct="md_map-recursion")
+    tup = [a for a in A.walk_local(mm) if isinstance(a, ast.Assign) and "range(len(%s[0]))" % arrs in A.src(a.value)]
+    ctx.check("C11-d", len(tup) >= 1, mm, "md_map does not build one tuple of arguments per element of the first array",
+              detail="result has the length of the input", construct="md_map-length")
     it = ctx.tree.func(SIB, "IterateBins.run")
     loops = [l for l in A.walk_local(it) if isinstance(l, ast.For) and A.call_name(l.iter) == "iter_bins_with_edges" if isinstance(l.iter, ast.Call)]
     dvar = None
